@@ -32,13 +32,13 @@ fn line_end() -> Piece {
     Piece::Slot("line end", alts(&[b"\n", b"\r\n", b" \n", b"\t\r\n", b"  \t\n"]))
 }
 fn last_line_end() -> Piece {
-    Piece::Slot("last line end", alts(&[b"\n", b"", b"\r\n", b" \t", b" \n\n", b"\nc end", b"\n\n  \n", b"\n  ", b"\n\tc end\n", b"\n \t\n"]))
+    Piece::Slot("last line end", alts(&[b"\n", b"", b"\r\n", b" \t", b" \n\n", b"\nc end", b"\n\n  \n", b"\n  ", b"\n\tc end\n", b"\n \t\n", b"\r\n\r\n", b"\n\r\n", b"\r\n \r\n"]))
 }
 fn between() -> Piece {
-    Piece::Slot("between statements", alts(&[b"", b"c note\n", b"\n", b"c\n", b"c x\r\n", b"  \n", b"\t", b"c a\nc b\n\n", b"\nc x\n", b"  c indented\n", b"c x\n\n\n", b"\n\n\n"]))
+    Piece::Slot("between statements", alts(&[b"", b"c note\n", b"\n", b"c\n", b"c x\r\n", b"  \n", b"\t", b"c a\nc b\n\n", b"\nc x\n", b"  c indented\n", b"c x\n\n\n", b"\n\n\n", b"\r\n", b"\r\n\r\n", b" \r\n", b"c x\r\n\r\n"]))
 }
 fn before_header() -> Piece {
-    Piece::Slot("before header", alts(&[b"", b"\n", b"c comment\n", b"c x\n\n", b"  ", b"\r\n \t", b"c\n", b"c x\n\n\n", b"c\n\n\n\n", b"c a\n\nc b\n\n\n", b"\n\nc x\n\n"]))
+    Piece::Slot("before header", alts(&[b"", b"\n", b"c comment\n", b"c x\n\n", b"  ", b"\r\n \t", b"c\n", b"c x\n\n\n", b"c\n\n\n\n", b"c a\n\nc b\n\n\n", b"\n\nc x\n\n", b"\r\n", b"c x\r\n\r\n", b"\r\n\r\nc x\r\n"]))
 }
 fn spelled(n: &str) -> Piece {
     let neg = n.starts_with('-');
